@@ -43,4 +43,6 @@ for d in seeded/${1:-*}/; do
   printf "%s\t%s\t%s\t%s\t%s\n" "$name" "$prop" "$st" "$tier" "$first" >> $out
 done
 rm -f replays/*
+# the evidence files describe the unchanged tree: what the runs against a seeded change wrote is dropped
+git -C /verif checkout -q -- evidence 2>/dev/null
 echo sweep-done
